@@ -6,7 +6,7 @@ export GOFLAGS=-mod=readonly GOPROXY=off GOSUMDB=off GOTOOLCHAIN=local GOCACHE=$
 V=/verif
 bash $V/lib/build.sh || exit 2
 rm -rf $V/build/rw
-$V/bin/vp rewrite internal/funcutil analysis/dataflow analysis/taint analysis/backtrace analysis > $V/build/rewrite.json 2> $V/build/rewrite.err
+(cd /repo && $V/bin/vp rewrite -typed ./internal/funcutil ./analysis/dataflow ./analysis/taint ./analysis/backtrace ./analysis ./analysis/lang ./analysis/escape) > $V/build/rewrite.json 2> $V/build/rewrite.err
 if [ $? -ne 0 ]; then cat $V/build/rewrite.err >&2; echo "TOOL-ERROR: rewriter cannot transform the current tree" >&2; exit 2; fi
 EXTRA=$(python3 -c "
 import json
